@@ -15,6 +15,10 @@ type (
 	ssa_Block = ssa.BasicBlock
 	ssa_Phi = ssa.Phi
 	ast_AssignStmt = ast.AssignStmt
+	ssa_Store      = ssa.Store
+	ssa_FieldAddr  = ssa.FieldAddr
+	ssa_Return     = ssa.Return
+	ssa_Slice      = ssa.Slice
 )
 
 const unreservedMarks = "-_.!~*'()"
